@@ -33,6 +33,11 @@ D4 interface with the producer (what the consumer's rules take for granted about
    field the aggregator orders as a string (fields found from the ordering comparisons of the ingest functions and
    finalize_run, producers followed from the record builders through locals / parameters / helper results) is a
    fixed-width rendering of the clock, the same number of fraction digits everywhere (text order = time order).
+   Round 8: every record type whose merge registers a launch aggregate under the launch key (the two edges and
+   pipeline_start - found from the fields read into the registration keys) gets the key written as received: a
+   function on the hand-down chain that writes / passes on `f(p)` for the one parameter `p` it received (decided with
+   reaching definitions, `p = f(p)` included) must be matched by the same `f` on the chain of every other joined type;
+   such a step no longer ends the hand-down chain of the edge agreement rule.
 D3+ the launch roll-up: the counting loop over the launch's runs is passed on every CFG path to the construction of
    the verdict of a known launch, and the counter it fills is what the verdict's summary carries.
 """
@@ -159,6 +164,51 @@ class registration_keys:
 
     def __call__(self, ctor: ast.AST) -> Set[str]:
         return self.by_ctor.get(id(ctor), self.all)
+
+
+def _aggregate_containers(cls: ast.ClassDef) -> Dict[str, Set[str]]:
+    """Role of an attribute of the aggregator as *container of aggregates*: constructor name -> the attributes ``A`` with
+    a store ``self.A[key] = Ctor(..)`` / ``self.A.setdefault(key, Ctor(..))`` (the object may sit in a local) in a method."""
+    out: Dict[str, Set[str]] = {}
+    for m in [x for x in cls.body if isinstance(x, FuncNode) and x.args.args]:
+        me = m.args.args[0].arg
+
+        def ctors(v: ast.AST, _m=m) -> List[str]:
+            found: List[str] = []
+            for l in _leaves(v):
+                if isinstance(l, ast.Call) and isinstance(l.func, ast.Name) and l.func.id[:1].isupper():
+                    found.append(l.func.id)
+                elif isinstance(l, ast.Name):
+                    for v2 in assigned_value(_m, l.id):
+                        found += [l2.func.id for l2 in _leaves(v2) if isinstance(l2, ast.Call) and isinstance(l2.func, ast.Name) and l2.func.id[:1].isupper()]
+            return found
+
+        for n in walk_no_nested(m):
+            if isinstance(n, ast.Assign):
+                for t in n.targets:
+                    if isinstance(t, ast.Subscript) and isinstance(t.value, ast.Attribute) and isinstance(t.value.value, ast.Name) and t.value.value.id == me:
+                        for c in ctors(n.value):
+                            out.setdefault(c, set()).add(t.value.attr)
+            elif isinstance(n, ast.Call) and call_attr(n) == "setdefault" and len(n.args) == 2 and isinstance(n.func, ast.Attribute) and isinstance(n.func.value, ast.Attribute) and isinstance(n.func.value.value, ast.Name) and n.func.value.value.id == me:
+                for c in ctors(n.args[1]):
+                    out.setdefault(c, set()).add(n.func.value.attr)
+    return out
+
+
+def _container_lookup(fn: ast.AST, containers: Dict[str, Set[str]], kind: str, var: str = "_RUN_"):
+    """The statement of *fn* that binds a local to the entry of a container of aggregates whose constructor name starts
+    with *kind* (``x = self.A.get(k)`` / ``x = self.A[k]``), as a pat match binding *var*; None when there is none."""
+    from .. import pat
+    attrs = {a for c, s_ in containers.items() if c.startswith(kind) for a in s_}
+    if not attrs or not fn.args.args:
+        return None
+    me = fn.args.args[0].arg
+    for form in (f"{var} = _C_.get(_K_)", f"{var} = _C_[_K_]"):
+        for node, env in pat.find(fn, form):
+            c = env.get("_C_")
+            if isinstance(c, ast.Attribute) and isinstance(c.value, ast.Name) and c.value.id == me and c.attr in attrs and pat.name_of(env, var):
+                return node, env
+    return None
 
 
 def is_old_entry(fn: ast.AST, e: ast.AST, target: ast.Subscript, depth: int = 0) -> bool:
@@ -2122,6 +2172,26 @@ def _record_sites(repo: Repo, skip_pkg: str) -> List[Tuple[str, str, object, str
                             for t in st.targets:
                                 if isinstance(t, ast.Subscript) and isinstance(t.value, ast.Name) and t.value.id == holder and isinstance(t.slice, ast.Constant) and isinstance(t.slice.value, str):
                                     items.setdefault(t.slice.value, []).append(st.value)
+                    # `for K, V in (("field", value), ..): holder[K] = V` (the pairs may sit in a local / a dict's items())
+                    for lp in walk_no_nested(fn):
+                        if not (isinstance(lp, ast.For) and isinstance(lp.target, ast.Tuple) and len(lp.target.elts) == 2 and all(isinstance(x, ast.Name) for x in lp.target.elts)):
+                            continue
+                        kn, vn = lp.target.elts[0].id, lp.target.elts[1].id
+                        stores = [st for b in lp.body for st in ast.walk(b) if isinstance(st, ast.Assign) and isinstance(st.value, ast.Name) and st.value.id == vn and any(isinstance(t, ast.Subscript) and isinstance(t.value, ast.Name) and t.value.id == holder and isinstance(t.slice, ast.Name) and t.slice.id == kn for t in st.targets)]
+                        if not stores:
+                            continue
+                        src = lp.iter
+                        if isinstance(src, ast.Name):
+                            vals_ = assigned_value(fn, src.id)
+                            src = vals_[0] if len(vals_) == 1 else None
+                        pairs: List[Tuple[ast.AST, ast.AST]] = []
+                        if isinstance(src, (ast.Tuple, ast.List)):
+                            pairs = [(x.elts[0], x.elts[1]) for x in src.elts if isinstance(x, (ast.Tuple, ast.List)) and len(x.elts) == 2]
+                        elif isinstance(src, ast.Call) and call_attr(src) == "items" and isinstance(src.func, ast.Attribute) and isinstance(src.func.value, ast.Dict) and not src.args:
+                            pairs = [(k_, v_) for k_, v_ in zip(src.func.value.keys, src.func.value.values) if k_ is not None]
+                        for k_, v_ in pairs:
+                            if isinstance(k_, ast.Constant) and isinstance(k_.value, str):
+                                items.setdefault(k_.value, []).append(v_)
             out.append((kind, tv[0].value, mod, qn, fn, n, items))
     cache[skip_pkg] = out
     return out
@@ -2163,13 +2233,126 @@ class _Terminal:
         self.mod, self.qn, self.fn, self.call, self.expr, self.default_of, self.chain = mod, qn, fn, call, expr, default_of, chain
 
 
-def field_terminals(repo: Repo, mod, qn: str, fn: ast.AST, e: ast.AST, call: Optional[ast.Call], chain: Tuple[str, ...], seen: Set[Tuple[int, str]], depth: int = 0) -> List[_Terminal]:
+class _Rewrite:
+    """A step of a hand-down chain where the value handed on is computed from the parameter that was received instead
+    of being that parameter: *expr* (in *fn*) is what is handed on, *sig* its text with the parameter abstracted."""
+    def __init__(self, mod, qn: str, fn: ast.AST, param: str, expr: ast.AST, sig: str, line: int) -> None:
+        self.mod, self.qn, self.fn, self.param, self.expr, self.sig, self.line = mod, qn, fn, param, expr, sig, line
+
+
+def _received_value(fn: ast.AST, e: ast.AST) -> Optional[Tuple[str, List[ast.AST]]]:
+    """*e* (an expression of *fn*) stands for a value that is computed from the entry value of exactly one parameter
+    of *fn* and from nothing else the function binds: (parameter, the expressions that are not the parameter itself).
+    Decided on the CFG with reaching definitions (the parameter may have been rebound: ``p = f(p)``; the value may
+    sit in a local).  None when the value has another origin (state, several parameters, a loop variable ...)."""
+    from ..cfg import reaching_defs
+
+    try:
+        st = e if isinstance(e, ast.stmt) else stmt_of(e)
+    except Exception:
+        return None
+    g = _cfg_of(fn)
+    at = g.nodes_for(st)
+    if not at:
+        return None
+    params = _own_params(fn)
+    me = None
+    if _is_method(fn) and params:
+        me, params = params[0], params[1:]
+    deps: Set[str] = set()
+    rewrites: List[ast.AST] = []
+    budget = [60]
+
+    def value_of_def(d) -> Optional[ast.AST]:
+        a = d.ast
+        if isinstance(a, ast.Assign) and len(a.targets) == 1 and isinstance(a.targets[0], ast.Name):
+            return a.value
+        if isinstance(a, ast.AnnAssign) and isinstance(a.target, ast.Name):
+            return a.value
+        return None
+
+    def names_ok(x: ast.AST, nodes: List[int]) -> bool:
+        """Every name read in *x* is the entry value of a parameter, a name the function never binds, or a local
+        whose definitions are themselves such expressions."""
+        for nm in [y for y in ast.walk(x) if isinstance(y, ast.Name) and isinstance(y.ctx, ast.Load)]:
+            par = parent(nm)
+            if isinstance(par, ast.Subscript) and par.value is nm:
+                return False  # a container the value is taken out of, not the value
+            if isinstance(par, ast.Attribute) and par.value is nm and not (isinstance(parent(par), ast.Call) and parent(par).func is par) and nm.id != me:
+                return False  # a field of an object: another origin
+            budget[0] -= 1
+            if budget[0] < 0:
+                return False
+            defs = {d.id: d for n in nodes for d in reaching_defs(g, nm.id, n)}
+            if not defs:
+                if nm.id in params:
+                    deps.add(nm.id)
+                continue
+            for d in defs.values():
+                v = value_of_def(d)
+                if v is None or not names_ok(v, [d.id]):
+                    return False
+        return True
+
+    def top(x: ast.AST, nodes: List[int], depth: int = 0) -> bool:
+        if depth > 6:
+            return False
+        if isinstance(x, ast.IfExp):
+            return names_ok(x.test, nodes) and top(x.body, nodes, depth + 1) and top(x.orelse, nodes, depth + 1)
+        if isinstance(x, ast.NamedExpr):
+            return top(x.value, nodes, depth + 1)
+        if isinstance(x, ast.Name):
+            defs = {d.id: d for n in nodes for d in reaching_defs(g, x.id, n)}
+            if not defs:
+                if x.id in params:
+                    deps.add(x.id)
+                    return True
+                return False  # a module-level name: not a value that was received
+            for d in defs.values():
+                v = value_of_def(d)
+                if v is None or not top(v, [d.id], depth + 1):
+                    return False
+            return True
+        if any(isinstance(y, (ast.Lambda, ast.ListComp, ast.SetComp, ast.DictComp, ast.GeneratorExp, ast.Await, ast.Yield, ast.YieldFrom)) for y in ast.walk(x)):
+            return False
+        if not names_ok(x, nodes):
+            return False
+        rewrites.append(x)
+        return True
+
+    if not top(e, at) or len(deps) != 1:
+        return None
+    return next(iter(deps)), rewrites
+
+
+def _rewrite_sig(x: ast.AST, param: str) -> str:
+    import copy
+    y = copy.deepcopy(x)
+    for n in ast.walk(y):
+        if isinstance(n, ast.Name) and n.id == param:
+            n.id = "<received>"
+    return ast.unparse(y)
+
+
+def field_terminals(repo: Repo, mod, qn: str, fn: ast.AST, e: ast.AST, call: Optional[ast.Call], chain: Tuple[str, ...], seen: Set[Tuple[int, str]], depth: int = 0, rewrites: Optional[List[_Rewrite]] = None) -> List[_Terminal]:
     """Follow a record field upwards through the functions that only hand it down (the value is one of their own
-    parameters): every caller's argument for that parameter - the parameter's default when the caller omits it."""
-    if isinstance(e, ast.Name) and e.id in _own_params(fn) and not _rebound(fn, e.id) and depth < 6:
-        if (id(fn), e.id) in seen:
+    parameters): every caller's argument for that parameter - the parameter's default when the caller omits it.
+    A function that hands on a value computed from the one parameter it received (``p = f(p)``) is followed through
+    that parameter as well; the step is noted in *rewrites*."""
+    pname: Optional[str] = None
+    if isinstance(e, ast.Name) and e.id in _own_params(fn) and not _rebound(fn, e.id):
+        pname = e.id
+    elif depth < 6 and not isinstance(e, ast.Constant):
+        rv = _received_value(fn, e)
+        if rv is not None:
+            pname = rv[0]
+            if rewrites is not None:
+                for x in rv[1]:
+                    rewrites.append(_Rewrite(mod, qn, fn, pname, x, _rewrite_sig(x, pname), getattr(x, "lineno", 0)))
+    if pname is not None and depth < 6:
+        if (id(fn), pname) in seen:
             return []
-        seen.add((id(fn), e.id))
+        seen.add((id(fn), pname))
         a = fn.args
         default_nodes = [d for d in list(a.defaults) + list(a.kw_defaults) if d is not None]
         out: List[_Terminal] = []
@@ -2179,13 +2362,13 @@ def field_terminals(repo: Repo, mod, qn: str, fn: ast.AST, e: ast.AST, call: Opt
             if _is_method(fn) != isinstance(c.func, ast.Attribute):
                 continue
             b = bind_call(fn, c)
-            if b is None or e.id not in b:
+            if b is None or pname not in b:
                 continue
-            arg = b[e.id]
+            arg = b[pname]
             if any(arg is d for d in default_nodes):
-                out.append(_Terminal(cm, cqn, cfn, c, arg, f"{qn}({e.id}={ast.unparse(arg)})", chain + (qn,)))
+                out.append(_Terminal(cm, cqn, cfn, c, arg, f"{qn}({pname}={ast.unparse(arg)})", chain + (qn,)))
             else:
-                out += field_terminals(repo, cm, cqn, cfn, arg, c, chain + (qn,), seen, depth + 1)
+                out += field_terminals(repo, cm, cqn, cfn, arg, c, chain + (qn,), seen, depth + 1, rewrites)
         return out
     return [_Terminal(mod, qn, fn, call, e, None, chain)]
 
@@ -2292,6 +2475,41 @@ def check_launch_key_agreement(R: Report, rule: str, repo: Repo, key_fields: Dic
                 R.check(same, rule, te.mod.rel, te.qn, f"{k}: {stmt_txt}", why, line, what_ok="same origin as in the start record")
     if not compared:
         raise AnalysisError("no function that emits both run_space_start and run_space_end was found: the key agreement of the two edges cannot be decided")
+
+
+def check_launch_key_as_received(R: Report, rule: str, repo: Repo, ks: Set[str], joined: List[str]) -> None:
+    """The aggregator joins the records of the types *joined* on the launch key fields *ks* by equality.  The producer
+    hands the key to the builders of these records along separate paths (the public trace-driver interface), so a
+    function on one path that writes / hands on a value computed from the key it received - instead of the key - makes
+    its records disagree with the records of the other types, unless every other type's path applies the same
+    computation.  Decided per builder and key field over the hand-down chain (reaching definitions)."""
+    pkg = AGG.rsplit("/", 1)[0] + "/"
+    per: Dict[str, Dict[str, List[Tuple[object, str, ast.AST, ast.AST, List[_Rewrite]]]]] = {}
+    for T in joined:
+        for mod, qn, fn, lit, items in record_builders(repo, T, pkg):
+            for k in sorted(ks):
+                vals = items.get(k)
+                if not vals:
+                    continue
+                rw: List[_Rewrite] = []
+                for v in vals:
+                    field_terminals(repo, mod, qn, fn, v, None, (), set(), 0, rw)
+                per.setdefault(k, {}).setdefault(T, []).append((mod, qn, fn, lit, rw))
+    for k in sorted(per):
+        sigs = {T: {r.sig for _m, _q, _f, _l, rw in lst for r in rw} for T, lst in per[k].items()}
+        for T, lst in sorted(per[k].items()):
+            others = [T2 for T2 in sorted(per[k]) if T2 != T]
+            for mod, qn, fn, lit, rw in lst:
+                repo.consulted.add(mod.rel)
+                bad = [(r, T2) for r in rw for T2 in others if r.sig not in sigs[T2]]
+                if not others:
+                    continue
+                if bad:
+                    r, T2 = bad[0]
+                    repo.consulted.add(r.mod.rel)
+                    R.violation(rule, r.mod.rel, r.qn, norm(stmt_of(r.expr), 110), f"`{k}` of the {T} record is `{ast.unparse(r.expr)}`, computed from the `{r.param}` this function received, while the {T2} records of the same launch carry the value as it was handed to their builder: the aggregator joins {', '.join(sorted(per[k]))} on {sorted(ks)} by equality, so for a launch whose `{k}` the computation changes the records fall into different launch aggregates - one launch with the lifecycle edges and no runs, one with the runs and no edges (`invalid`, both edges reported missing): the roll-up is not the count of the launch's runs", r.line)
+                else:
+                    R.ok(rule, mod.rel, qn, f"{T}.{k}: {norm(lit, 70)}", "written as received" if not rw else "same computation as in the other record types", getattr(lit, "lineno", 0))
 
 
 def _self_attr(e: ast.AST, me: str) -> Optional[str]:
@@ -2720,6 +2938,7 @@ def _run(repo: Repo, R: Report) -> None:
     config = _config_attrs(cls)
     model_classes = {c.name for c in repo.module(MODELS).tree.body if isinstance(c, ast.ClassDef)}
     launch_key_fields: Dict[str, Set[str]] = {}
+    registration_fields: Dict[str, Set[str]] = {}  # record type -> fields read into the keys under which its handler registers aggregates
     held_paths: Dict[str, Set[Tuple[str, ...]]] = {}  # aggregate field -> (record type, key, ..) of the record values it holds
     ordered_fields: Set[Tuple[str, Tuple[str, ...]]] = set()
     for hid, (hmod, handler, hcall) in first_call.items():
@@ -2755,8 +2974,10 @@ def _run(repo: Repo, R: Report) -> None:
                     if len(p) > 1:
                         ordered_fields.add((T_, p[1:]))
         keys_of = registration_keys(fn, state, model_classes)
+        kf = record_fields_read([derived[nm] for nm in sorted(keys_of.all) if nm in derived] + list(keys_of.key_exprs), rec)
+        for T_ in types:
+            registration_fields.setdefault(T_, set()).update(kf)
         if types <= set(RS_EDGES):
-            kf = record_fields_read([derived[nm] for nm in sorted(keys_of.all) if nm in derived] + list(keys_of.key_exprs), rec)
             for T_ in types:
                 launch_key_fields.setdefault(T_, set()).update(kf)
         for n in walk_no_nested(fn):
@@ -2827,6 +3048,12 @@ def _run(repo: Repo, R: Report) -> None:
     # ---------------------------------------------------------------- D4 (producer / consumer interface)
     r_key = R.rule("C13-D4-launch-key-agreement", "the fields the aggregator reads as the key of a launch aggregate carry, in the run_space_end record, the same values as in the run_space_start record of that launch: followed from the functions that build the records (constant record_type) through every function that only hands the value down, to the function that emits both edges - there the two values have the same origin (a parameter default that a call leaves out counts as the value)", 3)
     check_launch_key_agreement(R, r_key, repo, launch_key_fields)
+    r_recv = R.rule("C13-D4-launch-key-written-as-received", "every record type whose merge registers / looks up a launch aggregate (the run-space edges and the record that attaches a run to its launch) gets the launch key fields written as the producer handed them to the builder: a function on the hand-down chain of one record type that writes a value computed from the key it received (`k = f(k)`) is matched by the same computation on the chain of every other joined record type - the aggregator joins these records by equality of the key, and the key reaches the builders along separate paths", 6)
+    lk = launch_key_fields.get(RS_EDGES[0], set()) & launch_key_fields.get(RS_EDGES[1], set())
+    joined = [T_ for T_ in WANTED if lk and lk <= registration_fields.get(T_, set())]
+    if not (set(joined) - set(RS_EDGES)):
+        raise AnalysisError(f"no record type besides the run-space edges registers a launch aggregate under {sorted(lk)}: how runs are attached to launches is not understood")
+    check_launch_key_as_received(R, r_recv, repo, lk, joined)
     r_fh = R.rule("C13-D4-one-handle-per-trace-file", "a class that writes trace records keeps at most one open handle per file: two `open` sites kept in different write-through attributes never both open the configured path itself - the line order of a trace file is the emission order, which is what makes `run_space_start` / `pipeline_start` the first record of every crash prefix (the rows of the verdict table that are constrained)", 2)
     check_one_handle_per_file(R, r_fh, repo)
     r_txt = R.rule("C13-D4-ordered-stamps-are-fixed-width", "every value the runtime writes into a record field that the aggregator orders as it comes (`<` / `>` / min / max on the strings: run start / end merges, `start_timestamp > end_timestamp`, the fall-back from SER timing) is a rendering of the clock whose width does not depend on the instant (isoformat with an explicit timespec, strftime), and all producers render the same number of digits of the fraction of a second: only then is the order of the texts the order of the instants. Followed from the record builders (constant record_type) through locals, parameters and helper results to the expression that renders the clock", 3)
@@ -2916,11 +3143,12 @@ def _run(repo: Repo, R: Report) -> None:
     # ---------------------------------------------------------------- D3
     r_tab = R.rule("C13-D3-verdict-table", "run verdict: start&end -> complete, start&!end -> partial; launch verdict additionally complete only if no run is partial/invalid; problems name exactly the missing edge; missing = expected - observed, orphan = observed - expected, computed whenever the canonical spec is known", 14)
     # roles: the aggregate looked up, the observed-node set, the expected-node set, the roll-up counter
-    m = pat.find1(fr, "_RUN_ = self._runs.get(_ID_)") or pat.find1(fr, "_RUN_ = self._runs[_ID_]") or pat.find1(fr, "_RUN_ = self.get_run(_ID_)")
+    containers = _aggregate_containers(cls)
+    m = _container_lookup(fr, containers, "Run") or pat.find1(fr, "_RUN_ = self._runs.get(_ID_)") or pat.find1(fr, "_RUN_ = self._runs[_ID_]") or pat.find1(fr, "_RUN_ = self.get_run(_ID_)")
     runv = pat.name_of(m[1], "_RUN_") if m else None
     if not runv:
         raise AnalysisError("finalize_run: lookup of the run aggregate (self._runs.get(..)) not found")
-    m = pat.find1(fl, "_L_ = self._launches.get(_K_)") or pat.find1(fl, "_L_ = self._launches[_K_]") or pat.find1(fl, "_L_ = self.get_launch(_A_, _B_)")
+    m = _container_lookup(fl, containers, "Launch", "_L_") or pat.find1(fl, "_L_ = self._launches.get(_K_)") or pat.find1(fl, "_L_ = self._launches[_K_]") or pat.find1(fl, "_L_ = self.get_launch(_A_, _B_)")
     launchv = pat.name_of(m[1], "_L_") if m else None
     if not launchv:
         raise AnalysisError("finalize_launch: lookup of the launch aggregate (self._launches.get(..)) not found")
